@@ -1771,6 +1771,314 @@ func wideTrees(c *Ctx) {
 	}
 }
 
+
+// ---------------------------------------------------------------------------
+// round 6: scale thresholds (2^20 items / bases), full fan-out, interleaved iterator lifetimes
+
+func translateHuge(c *Ctx) {
+	for _, n := range []int{1048578, 1572867} {
+		s := c.bytesFrom([]byte("ACGTacgt"), n-n%3)
+		var whole []byte
+		st := safe(func() string { whole = sequtil.Translate(nil, s); return "" })
+		var pieces []byte
+		for p := 0; p < len(s); p += 3000 {
+			pieces = sequtil.Translate(pieces, s[p:min(p+3000, len(s))])
+		}
+		oracle := ""
+		if st == "PANIC" {
+			oracle = "Translate panicked on a long valid sequence"
+		} else if !bytes.Equal(whole, pieces) {
+			oracle = fmt.Sprintf("Translate of %d bases differs from the concatenation of the translations of its 3000-base pieces", len(s))
+		} else {
+			bad := append([]byte(nil), s...)
+			bad[len(bad)-2] = 'N'
+			if safe(func() string { sequtil.Translate(nil, bad); return "" }) != "PANIC" {
+				oracle = fmt.Sprintf("Translate accepts a non-ACGT base near the end of a %d-base sequence", len(s))
+			}
+		}
+		c.add(Case{Kind: "translate-huge", Nontrivial: true, Oracle: oracle, Note: fmt.Sprintf("Translate on %d bases, whole vs in 3000-base pieces", len(s))})
+	}
+}
+
+func trieFullFanout(c *Ctx) {
+	for _, prefix := range []string{"", "k", "ACGT"} {
+		for _, width := range []int{255, 256} {
+			t := trie.New()
+			want := 0
+			for b := 0; b < width; b++ {
+				t.Add(append([]byte(prefix), byte(b), 'x'))
+				want++
+			}
+			t.Add([]byte("zz-other"))
+			want++
+			c.begin("ForEach on a trie with a node of %d children under prefix %q", width, prefix)
+			n := 0
+			seen := map[string]int{}
+			st := safe(func() string {
+				t.ForEach(func(b []byte) bool {
+					n++
+					seen[string(b)]++
+					return n < want+32
+				})
+				return ""
+			})
+			oracle := ""
+			if st == "PANIC" || n != want || len(seen) != want {
+				oracle = fmt.Sprintf("ForEach on a trie with a %d-child node under %q: %d callbacks, %d distinct members, want %d of each (panic=%v)", width, prefix, n, len(seen), want, st == "PANIC")
+			}
+			c.add(Case{Kind: "trie-full-fanout", Nontrivial: true, Oracle: oracle, Note: fmt.Sprintf("ForEach over a node with %d children under %q", width, prefix)})
+		}
+	}
+}
+
+func regionsRound6(c *Ctx) {
+	check := func(kind, note string, starts, ends []int, qs []int) {
+		oracle := ""
+		c.begin("%s", note)
+		st := safe(func() string {
+			idx := regions.NewIndex(starts, ends)
+			for _, q := range qs {
+				got := idx.At(q)
+				if !sameInts(got, bruteAt(starts, ends, q)) && oracle == "" {
+					oracle = fmt.Sprintf("%s: At(%d) = %v, brute force gives %v", note, q, trunc(fmt.Sprint(got), 60), trunc(fmt.Sprint(bruteAt(starts, ends, q)), 60))
+				}
+			}
+			return ""
+		})
+		if st == "PANIC" && oracle == "" {
+			oracle = note + ": NewIndex/At panicked"
+		}
+		c.add(Case{Kind: kind, Nontrivial: true, Oracle: oracle, Note: note})
+	}
+	// more than 64 intervals of which at most 64 are non-empty, a non-empty one at a serial number >= 64
+	for i := 0; i < c.n(12); i++ {
+		n := 65 + c.rng.Intn(70)
+		starts, ends := make([]int, n), make([]int, n)
+		nonEmpty := 0
+		for j := range starts {
+			starts[j] = c.rng.Intn(50)
+			if (j >= 64 && nonEmpty < 60 && c.rng.Intn(2) == 0) || (j < 64 && nonEmpty < 40 && c.rng.Intn(3) == 0) {
+				ends[j] = starts[j] + 1 + c.rng.Intn(20)
+				nonEmpty++
+			} else {
+				ends[j] = starts[j] - c.rng.Intn(3)
+			}
+		}
+		var qs []int
+		for q := -1; q <= 72; q++ {
+			qs = append(qs, q)
+		}
+		check("regions-few-nonempty-among-many", fmt.Sprintf("%d intervals of which %d are non-empty (the rest empty or inverted)", n, nonEmpty), starts, ends, qs)
+	}
+	// tens of thousands of intervals: serial numbers beyond 55295 / 65535
+	for _, shape := range []string{"disjoint", "sliding"} {
+		n := 60000
+		if shape == "sliding" {
+			n = 67000
+		}
+		starts, ends := make([]int, n), make([]int, n)
+		for j := range starts {
+			if shape == "disjoint" {
+				starts[j], ends[j] = 3*j, 3*j+2
+			} else {
+				starts[j], ends[j] = j, j+3 // every position is covered by three consecutive serial numbers
+			}
+		}
+		var qs []int
+		for k := 0; k < 300; k++ {
+			j := 54000 + c.rng.Intn(n-54000)
+			if shape == "disjoint" {
+				qs = append(qs, 3*j, 3*j+1, 3*j+2)
+			} else {
+				qs = append(qs, j, j+1, j+2, j+3)
+			}
+		}
+		check("regions-tens-of-thousands", fmt.Sprintf("%d %s intervals, queried around serial numbers 54000..%d", n, shape, n), starts, ends, qs)
+	}
+}
+
+func mashRound6(c *Ctx) {
+	// k-mers that are hairpins (inverted repeat with arms of 32+ bases around a non-palindromic spacer), k > 64
+	for _, k := range []int{66, 71, 100} {
+		for i := 0; i < c.n(2); i++ {
+			arm := c.bytesFrom([]byte("ACGT"), 32+c.rng.Intn(k/2-32+1))
+			if 2*len(arm) > k-2 {
+				arm = arm[:(k-2)/2]
+			}
+			sp := c.bytesFrom([]byte("ACGT"), k-2*len(arm))
+			for string(sequtil.ReverseComplement(nil, sp)) == string(sp) {
+				sp = c.bytesFrom([]byte("ACGT"), len(sp))
+			}
+			hp := append(append(append([]byte(nil), arm...), sp...), sequtil.ReverseComplement(nil, arm)...)
+			s := append(append(c.bytesFrom([]byte("ACGT"), 10), hp...), c.bytesFrom([]byte("ACGT"), 10)...)
+			rc := sequtil.ReverseComplement(nil, s)
+			nn := len(s) + 5
+			a, b := sketchOf(nn, k, s), sketchOf(nn, k, rc)
+			oracle := ""
+			if a != b {
+				oracle = fmt.Sprintf("sketch of a sequence containing a %d-base hairpin k-mer differs from the sketch of its reverse complement (k=%d)", k, k)
+			}
+			c.add(Case{Op: fmt.Sprintf("ms.sketch %d %d %s", nn, k, hx(s)), Impl: a, Kind: "mash-hairpin-kmer", Nontrivial: true, Oracle: oracle,
+				Note: fmt.Sprintf("mash.Sequences(%d, %d, …) on a sequence with an inverted repeat (arms %d, spacer %d)", nn, k, len(arm), len(sp))})
+		}
+	}
+	// many long sequences in one call sharing a stretch (hashes repeated across sequences)
+	var seqs [][]byte
+	for i := 0; i < 5; i++ {
+		seqs = append(seqs, c.bytesFrom([]byte("ACGT"), 60000))
+	}
+	copy(seqs[4][1000:], seqs[0][500:800])
+	copy(seqs[2][30000:], seqs[1][100:400])
+	for _, n := range []int{1000, 20000} {
+		oracle := ""
+		st := safe(func() string {
+			all := sketchOf(n, 21, seqs...)
+			mh := mash.Sequences(n, 21)
+			for _, s := range seqs {
+				mash.Add(mh, 21, s)
+			}
+			one := u64s(mh.View())
+			rev := sketchOf(n, 21, seqs[4], seqs[3], seqs[2], seqs[1], seqs[0])
+			if all != one {
+				oracle = fmt.Sprintf("five 60000-base sequences sharing a 300-base stretch: one call differs from one Add per sequence (n=%d)", n)
+			} else if all != rev {
+				oracle = fmt.Sprintf("five 60000-base sequences sharing a 300-base stretch: the sketch depends on their order (n=%d)", n)
+			}
+			return ""
+		})
+		if st == "PANIC" {
+			oracle = "mash panicked"
+		}
+		c.add(Case{Kind: "mash-many-long-shared", Nontrivial: true, Oracle: oracle, Note: fmt.Sprintf("mash.Sequences(%d, 21, five 60000-base sequences with shared stretches)", n)})
+	}
+}
+
+func canonHugeStops(c *Ctx) {
+	s := c.bytesFrom([]byte("ACGT"), 1100000)
+	k := 21
+	for _, j := range []int{1, 5, 1000, 1<<20 - 1, 1 << 20, 1<<20 + 1} {
+		seen, after, stopped := 0, 0, false
+		c.begin("CanonicalSubsequences over 1.1M bases stopped after %d items", j)
+		st := safe(func() string {
+			sequtil.CanonicalSubsequences(s, k)(func(x []byte) bool {
+				if stopped {
+					after++
+					return false
+				}
+				seen++
+				if seen == j {
+					stopped = true
+					return false
+				}
+				return true
+			})
+			return ""
+		})
+		oracle := ""
+		if st == "PANIC" || after > 0 || seen != j {
+			oracle = fmt.Sprintf("CanonicalSubsequences over 1100000 bases stopped after %d items: panic=%v, callbacks after the stop=%d", j, st == "PANIC", after)
+		}
+		c.add(Case{Kind: "canon-stop-huge", Nontrivial: true, Oracle: oracle, Note: fmt.Sprintf("CanonicalSubsequences(1.1M bases, %d), consumer stops after %d items", k, j)})
+	}
+}
+
+// nestedTraversals: traversals started while another is running, inner ones stopped early, on the same tree
+func nestedTraversals(c *Ctx) {
+	for i := 0; i < c.n(20); i++ {
+		n := 6 + c.rng.Intn(40)
+		nodes := make([]*newick.Node, n)
+		for j := range nodes {
+			nodes[j] = &newick.Node{Name: fmt.Sprint(j)}
+			if j > 0 {
+				p := c.rng.Intn(j)
+				nodes[p].Children = append(nodes[p].Children, nodes[j])
+			}
+		}
+		root := nodes[0]
+		var wantPre, wantPost []string
+		recPre(root, &wantPre)
+		recPost(root, &wantPost)
+		c.begin("nested traversals (inner ones stopped early) of a %d-node tree %s", n, trunc(treeS(root), 200))
+		for _, outerPre := range []bool{true, false} {
+			var outer []string
+			oracle := ""
+			st := safe(func() string {
+				// an earlier traversal stopped early, of each kind
+				for range root.PostOrder() {
+					break
+				}
+				for range root.PreOrder() {
+					break
+				}
+				it := root.PostOrder()
+				if outerPre {
+					it = root.PreOrder()
+				}
+				for x := range it {
+					outer = append(outer, x.Name)
+					if len(outer) > n+16 {
+						return "NONTERM"
+					}
+					// inner traversal of the subtree, stopped after two nodes; then a complete one
+					k := 0
+					for range x.PostOrder() {
+						k++
+						if k == 2 {
+							break
+						}
+					}
+					var sub, wantSub []string
+					for y := range x.PreOrder() {
+						sub = append(sub, y.Name)
+						if len(sub) > n+16 {
+							return "NONTERM"
+						}
+					}
+					recPre(x, &wantSub)
+					if strings.Join(sub, ",") != strings.Join(wantSub, ",") && oracle == "" {
+						oracle = "a traversal started inside another traversal's loop yields the wrong nodes"
+					}
+				}
+				return ""
+			})
+			want := wantPost
+			if outerPre {
+				want = wantPre
+			}
+			if st != "" {
+				oracle = "nested traversals: " + st
+			} else if strings.Join(outer, ",") != strings.Join(want, ",") && oracle == "" {
+				oracle = "the outer traversal yields the wrong nodes when other traversals (some stopped early) run inside its loop"
+			}
+			c.add(Case{Kind: "nested-traversals", Nontrivial: true, Oracle: oracle, Note: fmt.Sprintf("outer pre=%v traversal of a %d-node tree with inner traversals (one stopped after 2 nodes) at every node", outerPre, n)})
+		}
+	}
+}
+
+// polytomies: nodes with 16..40 children, leaves and internal children in random order
+func polytomies(c *Ctx) {
+	for i := 0; i < c.n(20); i++ {
+		id := 0
+		mk := func() *newick.Node { id++; return &newick.Node{Name: fmt.Sprint(id)} }
+		root := mk()
+		w := 15 + c.rng.Intn(26)
+		for j := 0; j < w; j++ {
+			ch := mk()
+			if c.rng.Intn(3) == 0 {
+				for k := 0; k < 1+c.rng.Intn(3); k++ {
+					g := mk()
+					if c.rng.Intn(4) == 0 {
+						g.Children = []*newick.Node{mk(), mk()}
+					}
+					ch.Children = append(ch.Children, g)
+				}
+			}
+			root.Children = append(root.Children, ch)
+		}
+		travCase(c, root, "polytomy", true, i%4 == 0)
+	}
+}
+
 // ---------------------------------------------------------------------------
 // C20: numerals that other parsers read differently
 
